@@ -2,10 +2,23 @@
 // IWYU pragma: private, include "rlbox.hpp"
 // IWYU pragma: friend "rlbox_.*\.hpp"
 
+// The wrappers are laid out exactly like the data they wrap, and the library
+// relies on this: an element of a wrapped array is handed out as a wrapper of
+// the element type, a tainted is reread as a tainted_opaque and back. Tell
+// compilers that perform type-based alias analysis that objects of these class
+// types may overlap objects of other types.
+#ifndef RLBOX_MAY_ALIAS
+#  if defined(__GNUC__) || defined(__clang__)
+#    define RLBOX_MAY_ALIAS __attribute__((__may_alias__))
+#  else
+#    define RLBOX_MAY_ALIAS
+#  endif
+#endif
+
 namespace rlbox {
 
 template<typename T, typename T_Sbx>
-class tainted_opaque
+class RLBOX_MAY_ALIAS tainted_opaque
 {
 private:
   T data{ 0 };
